@@ -17,8 +17,11 @@ BUDGET_S = {'quick': 55, 'thorough': 540}
 
 KNOBS = {'n_min': 1, 'n_max': 5, 'late_p': 0.3, 'trigger_p': 0.4, 'allow_user': True, 'allow_shutdown': True,
          'kinds': ['crash', 'restart', 'restart', 'partition', 'cutlink', 'crash_master', 'restart_master',
-                   'proc_kill', 'user_restart', 'user_shutdown', 'user_restart'],
-         'apps': {'n_apps': (1, 3), 'n_progs': (1, 3), 'startsecs': (0, 8)}}
+                   'proc_kill', 'user_restart', 'user_shutdown', 'user_restart', 'user_restart_shutdown',
+                   'user_shutdown_restart', 'user_restart_shutdown'],
+         # processes that take time to stop keep the Master in RESTARTING / SHUTTING_DOWN for a while
+         'behaviours': {'*': [{'term': 3.0}]},
+         'apps': {'n_apps': (1, 3), 'n_progs': (1, 3), 'startsecs': (0, 8), 'stopwaitsecs': (4, 9)}}
 
 
 def plan(tier, seed):
